@@ -180,7 +180,7 @@ def c03(run):
     run.cov["rule"] = SCHED_RULE
     run.assumptions += SCHED_ASSUME
     world_stage(run, "fifo-schedules", "systems", "MCSched.tla", "MCSched.cfg",
-                extra=["--families", "fifo", "--nsys", _nsys(run, 900, 8000)])
+                extra=["--families", "fifo", "--nsys", _nsys(run, 500, 8000)])
     _equational(run, "fifo", scale="4")
 
 
@@ -197,3 +197,29 @@ def c18(run):
         return [keys] if r["policy"] == "fifo" else [[k] for k in keys]
     world_stage(run, "attained", "systems", "MCSched.tla", "MCSchedWitness.cfg", witness=alts,
                 extra=["--families", "fp,fifo", "--exact", "1", "--nsys", _nsys(run, 60, 600)])
+
+
+@check("C19")
+def c19(run):
+    run.cov["rule"] = ("agree events: seeded random systems (1-4 tasks, jitter, bursts, blocking, limits 1..70 (200)), one of seven "
+                       "families per system: LP(last=1,B=0)=P, LP(last=C,B)=NP(B), FNP(B)=LP(last=1,B), the three EDF analogues, and "
+                       "equal deadlines => max NP-EDF = FIFO; later stages: ROS 2 supply equivalences and event source = FIFO; "
+                       "non-trivial = not all results are Ok(0)/Ok(C); distinct = canonical JSON of the calls")
+    def nontriv(e):
+        rs = e["out"].get("rs") or ([e["out"].get("fifo")] + e["out"].get("np", []))
+        return any(r and r.get("ok", -1) not in (0, 1) for r in rs)
+    trace_stage(run, "agree", "agree", nontrivial=nontriv, ignore_checks=("returns",))
+
+
+@check("C17")
+def c17(run):
+    run.cov["rule"] = ("hardening walks: 3500 (thorough 30000) seeded random base systems (1-3 tasks, scalar costs, jitter / bursty curves), "
+                       "each followed by up to 6 single-parameter steps (WCET+1, jitter+, period-1, blocking+, interfering NP segment+1, "
+                       "task added, limit raised); after every step all nine dedicated-processor analyses are re-run; the recorded walk "
+                       "is replayed through the Mono state machine of TraceHarden.tla; later stage: the same for the ROS 2 analyses incl. "
+                       "supply weakening; non-trivial = a harden/raise step in which some result differs from Ok(0); distinct = canonical JSON")
+    run.assumptions += ["the task-under-analysis' own last non-preemptive segment is not a hardening (a longer final segment protects the job)"]
+    trace_stage(run, "walks", "harden", spec="TraceHarden.tla", cfg="TraceHarden.cfg",
+                session_key=lambda ln: '"op":"reset"' in ln,
+                nontrivial=lambda e: e["op"] != "reset" and any(r.get("ok", 1) != 0 for r in e["res"].values()),
+                keyfn=lambda e: {"sys": e["sys"], "op": e["op"]})
